@@ -216,16 +216,17 @@ def r2(ctx):
             ctx.undecided("C01.R2", fi, "decrypt_gcm arity")
         iv, aad, data = (resolve_arg(fi, a, c) for a in c.args[1:])
         dparam = fi.params[2] if len(fi.params) >= 3 else "datagram"
-        sb = slice_bounds(iv)
-        ctx.check(sb is not None and sb[0] == dparam and (sb[1] is None or fold_int(ctx, fi, sb[1]) == 0) and fold_int(ctx, fi, sb[2]) == IV,
+        from .common import flat_slice
+        fs = flat_slice(ctx, fi, c.args[1], c)
+        ctx.check(fs is not None and fs[:3] == (dparam, 0, IV),
                   "C01.R2", fi, "open: nonce == datagram[:IV_SIZE]", "decrypt nonce is the first 12 bytes of the received datagram",
                   witness=norm(iv), line=c.lineno)
-        sb = slice_bounds(aad)
-        ctx.check(sb is not None and sb[0] == dparam and (sb[1] is None or fold_int(ctx, fi, sb[1]) == 0) and fold_int(ctx, fi, sb[2]) == SIZE,
+        fs = flat_slice(ctx, fi, c.args[2], c)
+        ctx.check(fs is not None and fs[:3] == (dparam, 0, SIZE),
                   "C01.R2", fi, "open: aad == datagram[:SIZE]", "the whole received header is authenticated",
                   witness=norm(aad), line=c.lineno)
-        sb = slice_bounds(data)
-        ctx.check(sb is not None and sb[0] == dparam and fold_int(ctx, fi, sb[1]) == SIZE,
+        fs = flat_slice(ctx, fi, c.args[3], c)
+        ctx.check(fs is not None and fs[0] == dparam and fs[1] == SIZE,
                   "C01.R2", fi, "open: ciphertext starts at datagram[SIZE:]", "ciphertext begins right after the header",
                   witness=norm(data), line=c.lineno)
     # seal side
